@@ -26,7 +26,7 @@
    ci_wrap, st_wrap): the writer theorems describe a chunk through an existentially quantified record list
    and so determine these values only through their encodings.  The reduction is the identity on values
    that fit (mi_wrap_id, ci_wrap_id, st_wrap_id), which is what go_to_python_statistics uses. *)
-From Mcap Require ConstsTie LayoutTie. (* regenerated ties to /repo's source that this property's model relies on *)
+From Mcap Require ConstsTie LayoutTie PyDecisionTie. (* regenerated ties to /repo's source that this property's model relies on *)
 From Coq Require Import List NArith ZArith Bool.
 From Coq.Strings Require Import Byte.
 From Mcap Require Import Bytes GoSem Crc32 Records RecordsFacts Writer WriterFactsA WriterFactsC ComposeFacts
